@@ -123,9 +123,11 @@ type RSAKey struct {
 }
 
 // Env holds the key pairs of one test process: A and B are configured at the server,
-// X never is (an attacker's own key pair).
+// X never is (an attacker's own key pair).  C is a third server-side key, used only by the
+// multi-group engine units (groups of one server configured with different key sets).
 type Env struct {
 	A, B, X *RSAKey
+	C       *RSAKey
 	Dir     string
 }
 
@@ -174,6 +176,7 @@ func GetEnv() (*Env, error) {
 		e.A = mk("a", 1024)
 		e.B = mk("b", 1536)
 		e.X = mk("x", 1024)
+		e.C = mk("c", 1024)
 		envVal = e
 	})
 	return envVal, envErr
@@ -1062,6 +1065,14 @@ func csSign(key []byte, s string) string {
 // timestamp (within tolerance), method, path, query and body digest, under the secret
 // that was encrypted to a configured key.
 func RefCS(env *Env, conf CSConf, header string, hasHeader bool, method, path, query string, body []byte, now int64) CSVerdict {
+	keys := map[string]*rsa.PrivateKey{conf.FpB: env.B.Priv}
+	keys[conf.FpA] = env.A.Priv // A wins if both fingerprints were equal (they never are)
+	return RefCSKeys(keys, conf.TolSec, header, hasHeader, method, path, query, body, now)
+}
+
+// RefCSKeys is RefCS for an arbitrary configured key set (fingerprint -> private key) and
+// tolerance.
+func RefCSKeys(keys map[string]*rsa.PrivateKey, tolSec int64, header string, hasHeader bool, method, path, query string, body []byte, now int64) CSVerdict {
 	if !hasHeader {
 		return CSVerdict{Why: "no X-Content-Security header"}
 	}
@@ -1070,13 +1081,8 @@ func RefCS(env *Env, conf CSConf, header string, hasHeader bool, method, path, q
 	if fp == "" || secret == "" || sig == "" {
 		return CSVerdict{Why: "header lacks key/secret/signature"}
 	}
-	var priv *rsa.PrivateKey
-	switch fp {
-	case conf.FpA:
-		priv = env.A.Priv
-	case conf.FpB:
-		priv = env.B.Priv
-	default:
+	priv, okKey := keys[fp]
+	if !okKey {
 		return CSVerdict{Why: "fingerprint names no configured key"}
 	}
 	ct, err := base64.StdEncoding.DecodeString(secret)
@@ -1101,8 +1107,8 @@ func RefCS(env *Env, conf CSConf, header string, hasHeader bool, method, path, q
 	if err != nil {
 		return CSVerdict{Why: "time in secret not a number"}
 	}
-	if d := now - sec; d > conf.TolSec || -d > conf.TolSec {
-		return CSVerdict{Why: fmt.Sprintf("timestamp %d s away from now, tolerance %d s", d, conf.TolSec)}
+	if d := now - sec; d > tolSec || -d > tolSec {
+		return CSVerdict{Why: fmt.Sprintf("timestamp %d s away from now, tolerance %d s", d, tolSec)}
 	}
 	want := csSign(key, sigString(ts, method, path, query, body))
 	if sig != want {
@@ -1190,6 +1196,13 @@ type CSGenOpt struct {
 	// Wire, if set, sends every request through a real HTTP server instead of calling the
 	// gate in process.
 	Wire *WireTarget
+	// FixMethod / FixPath, if set, are the method and path the client signs (nothing is
+	// drawn for them): the multi-group engine units aim every request at a registered route.
+	FixMethod, FixPath string
+	// AltRoutes, if set, are other registered routes: the "method" and "path" mutations
+	// then mostly send the signed request to one of them (same signature, other route —
+	// possibly a route of another group) instead of to an arbitrary other method/path.
+	AltRoutes []Route
 }
 
 type csParts struct {
@@ -1242,8 +1255,16 @@ func GenCSReq(t *rapid.T, st *verifkit.Stats, env *Env, conf CSConf, now int64, 
 
 func genCSReqLogical(t *rapid.T, st *verifkit.Stats, env *Env, conf CSConf, now int64, opt CSGenOpt) CSReq {
 	p := &csParts{}
-	p.method = rapid.SampledFrom(methods).Draw(t, "method")
-	p.path = genPath(t, "path")
+	if opt.FixMethod != "" {
+		p.method = opt.FixMethod
+	} else {
+		p.method = rapid.SampledFrom(methods).Draw(t, "method")
+	}
+	if opt.FixPath != "" {
+		p.path = opt.FixPath
+	} else {
+		p.path = genPath(t, "path")
+	}
 	p.query = rapid.SampledFrom(queryForms).Draw(t, "query")
 	encrypted := rapid.IntRange(0, 1).Draw(t, "type") == 1
 	p.typ = "0"
@@ -1366,6 +1387,22 @@ func genCSReqLogical(t *rapid.T, st *verifkit.Stats, env *Env, conf CSConf, now 
 		"signing-omit", "signing-omit",
 	}).Draw(t, "mutation")
 	detail := ""
+	if (mut == "method" || mut == "path") && len(opt.AltRoutes) > 0 && rapid.IntRange(0, 3).Draw(t, "altRoute") > 0 {
+		// the same signed request sent to another registered route
+		var alts []Route
+		for _, a := range opt.AltRoutes {
+			if (mut == "method" && a.Path == p.path && a.Method != p.method) || (mut == "path" && a.Path != p.path) {
+				alts = append(alts, a)
+			}
+		}
+		if len(alts) > 0 {
+			a := alts[rapid.IntRange(0, len(alts)-1).Draw(t, "altRouteIdx")]
+			r.Method, r.Path = a.Method, a.Path
+			r.Mut = mut
+			r.Desc = desc + " mut=" + mut + "(registered " + a.Method + " " + a.Path + ")"
+			return r
+		}
+	}
 	switch mut {
 	case "method":
 		var others []string
